@@ -315,7 +315,7 @@ func checkCurrent13(s *source, srcDef map[string]any, out []byte, route string, 
 				}
 				va := evalTemplate(ctxNew, a)
 				if va != vb {
-					add("template-value-changed:"+positionClass(s)+":"+name, fmt.Sprintf("template %q evaluated to %q (with @webhook bound as at %s)\nmigrated to %q which evaluates to %q", before, vb, s.Version, a, va))
+					add("template-value-changed:"+name, fmt.Sprintf("template %q evaluated to %q (with @webhook bound as at %s)\nmigrated to %q which evaluates to %q", before, vb, s.Version, a, va))
 				} else if strings.Contains(vb, "bar") {
 					st.fact("template_value_from_webhook_preserved")
 				}
